@@ -68,6 +68,8 @@ pub enum Dom {
     EnergySigned,
     /// +0.0 or [0.01,1e6], without the up-front regime split
     EnergyLazy,
+    /// +0.0 or [lo, hi] (0 < lo), regime decided at creation
+    EnergyR(f32, f32),
     /// [lo, hi], finite
     Range(f32, f32),
     /// all 2^32 bit patterns
@@ -189,6 +191,9 @@ pub struct Ctx {
     pub le: std::collections::HashSet<(Arg, Arg)>,
     pub le_succ: StdMap<Arg, Vec<Arg>>,
     pub relational: bool,
+    /// power-of-two scaling normal form (C09 subdivision, C11)
+    pub scale_norm: bool,
+    pub scale_rewrites: u64,
     pub lemma_uses: StdMap<&'static str, u64>,
     pub lemma_uses_q: RefCell<StdMap<&'static str, u64>>,
 }
@@ -233,6 +238,8 @@ impl Ctx {
             le: Default::default(),
             le_succ: StdMap::new(),
             relational: true,
+            scale_norm: false,
+            scale_rewrites: 0,
             lemma_uses: StdMap::new(),
             lemma_uses_q: RefCell::new(StdMap::new()),
         }
@@ -254,8 +261,11 @@ pub fn reset(witness: StdMap<String, u32>, seed: u64, simplify: bool) {
         c.witness = witness;
         c.seed = seed;
         c.simplify = simplify;
+        c.scale_norm = SCALE_NORM.load(std::sync::atomic::Ordering::Relaxed);
     })
 }
+
+pub static SCALE_NORM: std::sync::atomic::AtomicBool = std::sync::atomic::AtomicBool::new(false);
 
 // ------------------------------------------------------------------ evaluation helpers
 
@@ -829,35 +839,153 @@ fn simplify(c: &Ctx, op: Op, a: Arg, b: Arg) -> Option<Arg> {
     None
 }
 
+/// `c` is an exact positive power of two 2^j with j != 0
+fn pow2(bits: u32) -> Option<i32> {
+    if bits & 0x807f_ffff == 0 {
+        let e = (bits >> 23) as i32;
+        if e != 0 && e != 255 && e != 127 {
+            return Some(e - 127);
+        }
+    }
+    None
+}
+
+fn pow2_const(j: i32) -> Arg {
+    Arg::K(((j + 127) as u32) << 23)
+}
+
+impl Ctx {
+    /// (core, j): the value is 2^j * core.  Scaled nodes are kept as `Mul(K(2^j), core)`.
+    fn split_scale(&self, x: Arg) -> (Arg, i32) {
+        match x {
+            Arg::K(b) => match pow2(b) {
+                Some(j) => (Arg::K(1.0f32.to_bits()), j),
+                None => (x, 0),
+            },
+            Arg::N(i) => {
+                let n = self.nodes[i as usize];
+                if n.op == Op::Mul {
+                    if let Arg::K(b) = n.a {
+                        if let Some(j) = pow2(b) {
+                            return (n.b, j);
+                        }
+                    }
+                }
+                (x, 0)
+            }
+        }
+    }
+
+    fn make_scaled(&mut self, core: Arg, j: i32) -> Arg {
+        if j == 0 {
+            return core;
+        }
+        if let Arg::K(b) = core {
+            let v = f32::from_bits(b) * f32::from_bits(match pow2_const(j) {
+                Arg::K(x) => x,
+                _ => unreachable!(),
+            });
+            return Arg::K(v.to_bits());
+        }
+        self.scale_rewrites += 1;
+        self.raw_node(Op::Mul, pow2_const(j), core)
+    }
+
+    /// Scaling normal form (only when `scale_norm` is on; DESIGN.md 2.4 L1): a power-of-two factor
+    /// commutes with +, -, min, max, *, /, abs, neg (exact unless an intermediate value leaves the
+    /// normal range, which is not discharged by the solver but checked on every witness by the
+    /// bit-for-bit comparison with the untouched build).
+    fn scale_rule(&mut self, op: Op, a: Arg, b: Arg) -> Option<Arg> {
+        let (ca, ja) = self.split_scale(a);
+        let (cb, jb) = self.split_scale(b);
+        let zero = |x: Arg| matches!(x, Arg::K(b) if b & 0x7fff_ffff == 0);
+        match op {
+            Op::Add | Op::Sub | Op::Min | Op::Max => {
+                if op == Op::Add && a == b {
+                    // x + x = 2 x
+                    return Some(self.make_scaled(ca, ja + 1));
+                }
+                let j = if zero(a) {
+                    jb
+                } else if zero(b) {
+                    ja
+                } else if ja == jb {
+                    ja
+                } else {
+                    return None;
+                };
+                if j == 0 {
+                    return None;
+                }
+                let core = self.mk_node(op, ca, cb);
+                Some(self.make_scaled(core, j))
+            }
+            Op::Mul => {
+                if ja == 0 && jb == 0 {
+                    return None;
+                }
+                // the canonical scaled node itself
+                if matches!(a, Arg::K(x) if pow2(x).is_some()) && jb == 0 {
+                    return None;
+                }
+                let core = self.mk_node(Op::Mul, ca, cb);
+                Some(self.make_scaled(core, ja + jb))
+            }
+            Op::Div => {
+                if ja == 0 && jb == 0 {
+                    return None;
+                }
+                let core = self.mk_node(Op::Div, ca, cb);
+                Some(self.make_scaled(core, ja - jb))
+            }
+            _ => None,
+        }
+    }
+
+    fn raw_node(&mut self, op: Op, ka: Arg, kb: Arg) -> Arg {
+        let key = (op, ka, kb);
+        let iv = iv_op(op, &self.ivof(ka), &self.ivof(kb));
+        if let Some(&i) = self.cons.get(&key) {
+            let old = self.iv[i as usize];
+            self.iv[i as usize] = iv_intersect(&old, &iv);
+            return Arg::N(i);
+        }
+        let v = apply(op, self.value(ka), self.value(kb));
+        let vs = vs_or(&self.vsof(ka), &self.vsof(kb));
+        let id = self.push(Node { op, a: ka, b: kb }, v, iv, vs);
+        self.cons.insert(key, id);
+        self.relate(id, op, ka, kb);
+        Arg::N(id)
+    }
+
+    pub fn mk_node(&mut self, op: Op, a: Arg, b: Arg) -> Arg {
+        if let (Arg::K(x), Arg::K(y)) = (a, b) {
+            return Arg::K(apply(op, f32::from_bits(x), f32::from_bits(y)).to_bits());
+        }
+        let (mut ka, mut kb) = (a, b);
+        if commutative(op) && kb < ka {
+            std::mem::swap(&mut ka, &mut kb);
+        }
+        if self.simplify {
+            if let Some(r) = simplify(self, op, ka, kb) {
+                self.stats.simplified += 1;
+                return r;
+            }
+        }
+        if self.scale_norm {
+            if let Some(r) = self.scale_rule(op, ka, kb) {
+                return r;
+            }
+        }
+        self.raw_node(op, ka, kb)
+    }
+}
+
 pub fn mk(op: Op, a: Sf, b: Sf) -> Sf {
     if let (Sf::C(x), Sf::C(y)) = (a, b) {
         return Sf::C(apply(op, x, y));
     }
-    with(|c| {
-        let (mut ka, mut kb) = (Arg::of(a), Arg::of(b));
-        if commutative(op) && kb < ka {
-            std::mem::swap(&mut ka, &mut kb);
-        }
-        if c.simplify {
-            if let Some(r) = simplify(c, op, ka, kb) {
-                c.stats.simplified += 1;
-                return r.sf();
-            }
-        }
-        let key = (op, ka, kb);
-        let iv = iv_op(op, &c.ivof(ka), &c.ivof(kb));
-        if let Some(&i) = c.cons.get(&key) {
-            let old = c.iv[i as usize];
-            c.iv[i as usize] = iv_intersect(&old, &iv);
-            return Sf::S(i);
-        }
-        let v = apply(op, c.value(ka), c.value(kb));
-        let vs = vs_or(&c.vsof(ka), &c.vsof(kb));
-        let id = c.push(Node { op, a: ka, b: kb }, v, iv, vs);
-        c.cons.insert(key, id);
-        c.relate(id, op, ka, kb);
-        Sf::S(id)
-    })
+    with(|c| c.mk_node(op, Arg::of(a), Arg::of(b)).sf())
 }
 
 pub fn mk1(op: Op, a: Sf) -> Sf {
@@ -866,24 +994,78 @@ pub fn mk1(op: Op, a: Sf) -> Sf {
     }
     with(|c| {
         let ka = Arg::of(a);
-        let ia = c.ivof(ka);
-        if c.simplify && op == Op::Abs && !ia.nan && ia.lo >= 0.0 && !ia.nz {
-            c.stats.simplified += 1;
-            return a;
+        if c.scale_norm && matches!(op, Op::Abs | Op::Neg) {
+            let (core, j) = c.split_scale(ka);
+            if j != 0 {
+                let inner = c.mk1_node(op, core);
+                return c.make_scaled(inner, j).sf();
+            }
+        }
+        c.mk1_node(op, ka).sf()
+    })
+}
+
+impl Ctx {
+    fn mk1_node(&mut self, op: Op, ka: Arg) -> Arg {
+        if let Arg::K(x) = ka {
+            return Arg::K(apply(op, f32::from_bits(x), 0.0).to_bits());
+        }
+        let ia = self.ivof(ka);
+        if self.simplify && op == Op::Abs && !ia.nan && ia.lo >= 0.0 && !ia.nz {
+            self.stats.simplified += 1;
+            return ka;
         }
         let key = (op, ka, Arg::K(0));
         let iv = iv_op(op, &ia, &ia);
-        if let Some(&i) = c.cons.get(&key) {
-            let old = c.iv[i as usize];
-            c.iv[i as usize] = iv_intersect(&old, &iv);
-            return Sf::S(i);
+        if let Some(&i) = self.cons.get(&key) {
+            let old = self.iv[i as usize];
+            self.iv[i as usize] = iv_intersect(&old, &iv);
+            return Arg::N(i);
         }
-        let v = apply(op, c.value(ka), 0.0);
-        let vs = c.vsof(ka);
-        let id = c.push(Node { op, a: ka, b: Arg::K(0) }, v, iv, vs);
-        c.cons.insert(key, id);
-        Sf::S(id)
-    })
+        let v = apply(op, self.value(ka), 0.0);
+        let vs = self.vsof(ka);
+        let id = self.push(Node { op, a: ka, b: Arg::K(0) }, v, iv, vs);
+        self.cons.insert(key, id);
+        Arg::N(id)
+    }
+
+    /// Comparison atoms in scaling normal form: a common positive power-of-two factor is dropped.
+    pub fn norm_atom(&self, cmp: Cmp, a: Arg, b: Arg) -> (Cmp, Arg, Arg) {
+        if !self.scale_norm {
+            return (cmp, a, b);
+        }
+        let (ca, ja) = self.split_scale(a);
+        let (cb, jb) = self.split_scale(b);
+        let zero = |x: Arg| matches!(x, Arg::K(b) if b & 0x7fff_ffff == 0);
+        let is_k = |x: Arg| matches!(x, Arg::K(_));
+        if zero(a) && jb != 0 {
+            return (cmp, a, cb);
+        }
+        if zero(b) && ja != 0 {
+            return (cmp, ca, b);
+        }
+        if ja == jb && ja != 0 && !is_k(a) && !is_k(b) {
+            return (cmp, ca, cb);
+        }
+        // scaled node against a non-zero constant: move the factor to the constant when that is exact
+        if let (Arg::K(kb_), true, false) = (b, ja != 0, is_k(a)) {
+            let c = f32::from_bits(kb_);
+            let s = f32::from_bits(((127 - ja) as u32) << 23);
+            let c2 = c * s;
+            if c2.is_normal() && c2 / s == c {
+                return (cmp, ca, Arg::K(c2.to_bits()));
+            }
+        }
+        if let (Arg::K(ka_), true, false) = (a, jb != 0, is_k(b)) {
+            let c = f32::from_bits(ka_);
+            let s = f32::from_bits(((127 - jb) as u32) << 23);
+            let c2 = c * s;
+            if c2.is_normal() && c2 / s == c {
+                return (cmp, Arg::K(c2.to_bits()), cb);
+            }
+        }
+        (cmp, a, b)
+    }
 }
 
 // ------------------------------------------------------------------ inputs
@@ -916,6 +1098,10 @@ pub fn default_value(name: &str, dom: Dom, seed: u64) -> f32 {
             let v = (10f64).powf(3.0 * u);
             ((v * 100.0).round() / 100.0) as f32
         }
+        Dom::EnergyR(lo, hi) => {
+            let v = (10f64).powf(3.0 * u);
+            (((v * 100.0).round() / 100.0) as f32).max(lo).min(hi)
+        }
         Dom::Range(lo, hi) => {
             let v = lo as f64 + (hi as f64 - lo as f64) * (0.25 + 0.5 * u);
             v as f32
@@ -943,6 +1129,7 @@ pub fn input(name: &str, dom: Dom) -> Sf {
         let idx = c.vars.len();
         let (lo, hi, zero_ok, iv) = match dom {
             Dom::Energy | Dom::EnergyLazy => (E_MIN, E_MAX, true, Iv { lo: 0.0, hi: E_MAX, nan: false, nz: false }),
+            Dom::EnergyR(lo, hi) => (lo, hi, true, Iv { lo: 0.0, hi, nan: false, nz: false }),
             Dom::EnergyPos => (E_MIN, E_MAX, false, Iv { lo: E_MIN, hi: E_MAX, nan: false, nz: false }),
             Dom::EnergySigned => (-E_MAX, E_MAX, true, Iv { lo: -E_MAX, hi: E_MAX, nan: false, nz: false }),
             Dom::Range(lo, hi) => (lo, hi, false, Iv { lo, hi, nan: false, nz: lo <= 0.0 && hi >= 0.0 && lo < 0.0 }),
@@ -953,14 +1140,14 @@ pub fn input(name: &str, dom: Dom) -> Sf {
         let node = Arg::N(id);
         let vs = vs_bit(idx);
         match dom {
-            Dom::Energy => {
+            Dom::Energy | Dom::EnergyR(_, _) => {
                 let is_zero = v == 0.0;
                 c.trace.push(Decision { cmp: Cmp::Eq, a: node, b: Arg::K(0), side: is_zero, kind: Kind::Regime, vars: vs });
                 if is_zero {
                     c.iv[id as usize] = Iv::point(0.0);
                     Sf::C(0.0)
                 } else {
-                    c.iv[id as usize].lo = E_MIN;
+                    c.iv[id as usize].lo = lo;
                     c.vars[idx].zero_ok = false;
                     Sf::S(id)
                 }
@@ -1128,7 +1315,10 @@ pub fn decide(cmp: Cmp, a: Sf, b: Sf) -> bool {
         return apply_cmp(cmp, x, y);
     }
     with(|c| {
-        let (ka, kb) = (Arg::of(a), Arg::of(b));
+        let (cmp, ka, kb) = c.norm_atom(cmp, Arg::of(a), Arg::of(b));
+        if let (Arg::K(x), Arg::K(y)) = (ka, kb) {
+            return apply_cmp(cmp, f32::from_bits(x), f32::from_bits(y));
+        }
         let key = (cmp, ka, kb);
         if let Some(&d) = c.cache.get(&key) {
             c.stats.decided_cache += 1;
